@@ -52,13 +52,14 @@ type Op struct {
 
 // Script is a complete, replayable description of one run.
 type Script struct {
-	Prop        string      `json:"prop"`
-	Seed        uint64      `json:"seed"`
-	Gen         GenesisSpec `json:"genesis"`
-	Node        NodeOpts    `json:"node"`
-	WallOffsetS int64       `json:"wall_offset_s"` // the primary's wall clock = bubble epoch + offset
-	Ops         []Op        `json:"ops"`
+	Prop        string            `json:"prop"`
+	Seed        uint64            `json:"seed"`
+	Gen         GenesisSpec       `json:"genesis"`
+	Node        NodeOpts          `json:"node"`
+	WallOffsetS int64             `json:"wall_offset_s"` // the primary's wall clock = bubble epoch + offset
+	Ops         []Op              `json:"ops"`
 	Extra       map[string]string `json:"extra,omitempty"`
+	Replicas    []ReplicaEnv      `json:"replicas,omitempty"`
 }
 
 // Sent records every transaction the clients ever built.
@@ -85,6 +86,7 @@ type World struct {
 	next    map[int]uint64 // wallet -> next nonce the client believes in
 	Labels  map[string]common.Address
 	OnBlock []func(w *World, rec *BlockRecord, txs []*TxInfo)
+	C06     *C06Model
 	opIdx   int
 }
 
@@ -103,6 +105,16 @@ func NewWorld(r *RunCtx, s *Script) *World {
 	w.G = BuildGenesis(s.Gen)
 	w.DB = sdkdb.NewMemDB()
 	w.C = NewChain(w.G, w.DB, s.Node)
+	w.C06 = NewC06Model()
+	for _, x := range w.G.Wallets {
+		w.C06.Keys[x.Addr] = true
+	}
+	for _, v := range w.G.Validators {
+		w.C06.Keys[v.Operator.Addr] = true
+	}
+	for _, x := range w.G.VestKeys {
+		w.C06.Keys[x.Addr] = true
+	}
 	return w
 }
 
@@ -264,11 +276,12 @@ func IntrinsicGas(data []byte, al ethtypes.AccessList, create bool) uint64 {
 
 var templates = map[string]func() []byte{
 	"store": TmplStore, "logs": TmplLogs, "revert": TmplRevert, "invalid": TmplInvalid, "burn": TmplBurn,
-	"clear": TmplClear, "sd": TmplSelfDestruct, "factory": TmplFactory, "proxy": TmplProxy,
+	"clear": TmplClear, "sd": TmplSelfDestruct, "factory": TmplFactory, "proxy": TmplProxy, "multi": TmplMulti,
+	"sd2": TmplSelfDestruct, "sd3": TmplSelfDestruct,
 }
 
 // TemplateNames in fixed order.
-var TemplateNames = []string{"store", "logs", "revert", "invalid", "burn", "clear", "sd", "factory", "proxy"}
+var TemplateNames = []string{"store", "logs", "revert", "invalid", "burn", "clear", "sd", "factory", "proxy", "multi", "sd2", "sd3"}
 
 // BuildEthOp resolves and signs an eth op against the current committed state.
 func (w *World) BuildEthOp(op *Op) *Sent {
